@@ -12,7 +12,9 @@ Transcribes, as they are on the pinned tree (every Python step that can raise is
 * `scenarios/scenario_store/getters.py`: `get_trigger` (Python negative indexing included), `get_variable_name`
   (with `TriggerManagerDE.get_variable`), `get_units`;
 * `objects/support/trigger_object.py` `_should_be_displayed` with the `Effect` / `Condition` overrides;
-* `Effect.get_content_as_string`, `Condition.get_content_as_string` (`__str__` = with definition),
+* `Effect.get_content_as_string`, `Condition.get_content_as_string` (`__str__` = with definition), including the
+  `getattr` of the `Effect.quantity` property (for an armour/attack effect it evaluates `_merge_aa_values`, which
+  reads the trigger version through the store and multiplies/adds the stored class and amount),
   `Trigger.get_content_as_string`, `TriggerManager.get_content_as_string` / `get_trigger_as_string` /
   `_validate_and_retrieve_trigger_info` (int argument) / `get_summary_as_string` (the DE subclass only appends
   the variable listing, which is plain f-string formatting).
